@@ -63,6 +63,13 @@ ApplySetTitle(S, a) ==
   [Bump(S) EXCEPT !.title = i, !.actors = AddOnce(S.actors, a),
      !.timeline = Append(S.timeline, [kind |-> "title", op |-> i, au |-> a, hist |-> <<i, S.title>>, a1 |-> <<>>, a2 |-> <<>>])]
 
+(* a title change whose author claims the title was already that (`was` is what the author saw, or says to have seen; it is
+   recorded as given and decides nothing): the title is set and the change is in the timeline like any other *)
+ApplySetTitleStale(S, a) ==
+  LET i == S.n + 1 IN
+  [Bump(S) EXCEPT !.title = i, !.actors = AddOnce(S.actors, a),
+     !.timeline = Append(S.timeline, [kind |-> "title", op |-> i, au |-> a, hist |-> <<i, i>>, a1 |-> <<>>, a2 |-> <<>>])]
+
 ApplySetStatus(S, a, st) ==
   LET i == S.n + 1 IN
   [Bump(S) EXCEPT !.status = st, !.actors = AddOnce(S.actors, a),
@@ -109,6 +116,7 @@ Apply(S, c) ==
     [] c.k = "edit"     -> ApplyEditComment(S, c.a, Target(S, c.t), c.wf, FALSE)
     [] c.k = "editsame" -> ApplyEditComment(S, c.a, Target(S, c.t), c.wf, TRUE)
     [] c.k = "title"    -> ApplySetTitle(S, c.a)
+    [] c.k = "titlestale" -> ApplySetTitleStale(S, c.a)
     [] c.k = "status"   -> ApplySetStatus(S, c.a, c.s)
     [] c.k = "labelf"   -> ApplyLabelChange(S, c.a, c.add, c.rem)
     [] c.k = "label"    -> ApplyChangeLabels(S, c.a, c.add, c.rem)
